@@ -26,7 +26,15 @@ structure FileSrcFacts where
   fileStreamCap : Nat
   runSelectsTerminating : Bool
   readErrShutdownBeforeClose : Bool
+  /-- streamReader makes one result channel per block, queues it on `preprocessed` in read order and only then
+      starts the preprocessing goroutine with that channel -/
+  resultChanQueuedInReadOrder : Bool := false
+  /-- the forwarding goroutine takes the next result channel from `preprocessed`, waits for its block, then forwards -/
+  forwarderSequential : Bool := false
 deriving Repr
+
+/-- the ordered-pipeline skeleton of `Conc/Pipeline.lean` is what the code does -/
+def FileSrcFacts.orderedPipeline (f : FileSrcFacts) : Bool := f.resultChanQueuedInReadOrder && f.forwarderSequential
 
 /-- burst computation + registration is atomic w.r.t. the feeder: some lock is held that excludes the writer -/
 def HubFacts.atomicWithFeeder (f : HubFacts) : Bool :=
